@@ -45,7 +45,7 @@ STYLES = {"plain": PLAIN, "chr": CHR, "alt": ALT, "dot": DOT}
 ALL_NAMES = CHR + PLAIN + ["chrUn_gl000220", "chr1_KI270706v1_random", "GL000192.1", "scaffold_7"]
 COORDS = [0, 1, 2, 10, 99, 100, 299999999, 300000000]
 PAIRS = [(s, e) for s in COORDS for e in COORDS if s < e]
-LABELS = ["A", "-", "A,B", "x.y", "a-b"]
+LABELS = ["A", "-", "A,B", "x.y", "a-b", "."]  # "." alone is a legal label too (a dot), distinct from "-"
 FLOATS = [0.0, 1e-7, 0.1234567891, -20.0, 123456.789, 1e10, 2.5e-310]
 INTS = [0, 1, 7, -3, 300000000, 2**40]
 IVS = [(0, 1), (0, 10), (1, 2), (1, 10), (2, 10), (10, 100)]
